@@ -59,6 +59,14 @@ pub enum SOp {
     /// 0 and with SIGTERM, wait, kill again (performed by `zombie_*`, appended
     /// to the results of the history)
     Zombie(u8),
+    /// signals a process sends to itself while it blocks and unblocks them, all
+    /// with a handler installed: steps (0 block / 1 unblock / 2 raise / 3 note
+    /// which handlers have run since the last note, signal index into TSTP TTIN
+    /// CONT USR1 TERM); ends with "unblock all, note". Decides what stays
+    /// pending: a SIGCONT discards pending stop signals and a stop signal a
+    /// pending SIGCONT, whether or not the process is stopped (performed by
+    /// `sigseq_*`)
+    SigSeq(Vec<(u8, u8)>),
     /// a large write (pipe capacity questions are not compared: only used on
     /// regular files)
     BigWrite(u8),
@@ -144,7 +152,31 @@ pub fn generate(rng: &mut Rng, long: bool) -> SHist {
             28 => SOp::IsExec(path(rng)),
             29 if rng.bool() => SOp::Pipe,
             29 if rng.bool() => SOp::Limit(*rng.pick(&[3u8, 4, 5, 6, 8, 12])),
-            29 => SOp::Zombie(*rng.pick(&[0u8, 3, 7])),
+            29 if rng.bool() => SOp::Zombie(*rng.pick(&[0u8, 3, 7])),
+            29 => {
+                let sig = |rng: &mut Rng| *rng.pick(&[0u8, 0, 0, 1, 2, 2, 2, 3, 4]);
+                let mut steps: Vec<(u8, u8)> = Vec::new();
+                if rng.bool() {
+                    // a signal raised while blocked, then another one
+                    let (x, y) = (sig(rng), sig(rng));
+                    steps.push((0, x));
+                    if rng.bool() {
+                        steps.push((0, y));
+                    }
+                    steps.push((2, x));
+                    steps.push((2, y));
+                    if rng.bool() {
+                        steps.push((3, 0));
+                    }
+                    steps.push((1, x));
+                    steps.push((3, 0));
+                } else {
+                    for _ in 0..rng.range(2, 8) {
+                        steps.push((*rng.pick(&[0u8, 0, 1, 1, 2, 2, 2, 2, 3]), sig(rng)));
+                    }
+                }
+                SOp::SigSeq(steps)
+            }
             _ => SOp::Tmpfile,
         });
     }
@@ -166,7 +198,7 @@ fn errname(e: Errno) -> String {
 
 /// Issues the operations; one result line per operation. `base` is the
 /// directory the history started in (its name is hidden in `getcwd` results).
-pub fn run_ops<S>(sys: &S, h: &SHist, base: &str, zombie: &dyn Fn(u8) -> String) -> Vec<String>
+pub fn run_ops<S>(sys: &S, h: &SHist, base: &str, zombie: &dyn Fn(u8) -> String, sigseq: &dyn Fn(&[(u8, u8)]) -> String) -> Vec<String>
 where
     S: Open
         + Close
@@ -389,6 +421,7 @@ where
             }
             SOp::BigWrite(_) => "bigwrite: -".into(),
             SOp::Zombie(st) => format!("zombie: {}", zombie(*st)),
+            SOp::SigSeq(steps) => format!("sigseq: {}", sigseq(steps)),
             SOp::IsExec(p) => {
                 let path = CString::new(PATHS[*p as usize]).unwrap();
                 format!("isexec: {}", sys.is_executable_file(&path))
@@ -478,7 +511,148 @@ pub fn run_virtual(h: &SHist) -> Vec<String> {
     sys.umask(Mode::from_bits_truncate(0o022));
     sys.chdir(c"/base/work").ok();
     let zsys = sys.clone();
-    run_ops(&sys, h, "/base/work", &move |st| zombie_virtual(&zsys, st))
+    let ssys = sys.clone();
+    run_ops(&sys, h, "/base/work", &move |st| zombie_virtual(&zsys, st), &move |steps| sigseq_virtual(&ssys, steps))
+}
+
+const SIGSEQ_NAMES: [&str; 5] = ["TSTP", "TTIN", "CONT", "USR1", "TERM"];
+
+/// `SOp::SigSeq` on the simulated kernel: a fresh process with handlers for the
+/// five signals; "note" lists the signals caught since the last note.
+fn sigseq_virtual(sys: &yash_env::system::r#virtual::VirtualSystem, steps: &[(u8, u8)]) -> String {
+    use yash_env::job::Pid;
+    use yash_env::system::r#virtual::sigset::Sigset;
+    use yash_env::system::r#virtual::{Process, SIGCONT, SIGTERM, SIGTSTP, SIGTTIN, SIGUSR1, VirtualSystem};
+    use yash_env::system::{CaughtSignals as _, Disposition, SendSignal as _, Sigaction as _, Sigmask as _, SigmaskOp};
+    let sigs = [SIGTSTP, SIGTTIN, SIGCONT, SIGUSR1, SIGTERM];
+    let pid = {
+        let mut st = sys.state.borrow_mut();
+        let pid = Pid(st.processes.keys().map(|p| p.0).max().unwrap_or(2) + 1);
+        let child = Process::fork_from(sys.process_id, st.processes.get(&sys.process_id).unwrap());
+        st.processes.insert(pid, child);
+        pid
+    };
+    let child = VirtualSystem {
+        state: std::rc::Rc::clone(&sys.state),
+        process_id: pid,
+    };
+    for s in sigs {
+        child.sigaction(s, Disposition::Catch).ok();
+    }
+    let mut out: Vec<String> = Vec::new();
+    let mut note = |child: &VirtualSystem| {
+        let mut got: Vec<usize> = child.caught_signals().into_iter().filter_map(|c| sigs.iter().position(|s| *s == c)).collect();
+        got.sort();
+        got.dedup();
+        out.push(format!("[{}]", got.iter().map(|i| SIGSEQ_NAMES[*i]).collect::<Vec<_>>().join(" ")));
+    };
+    for (op, s) in steps {
+        let sig = sigs[*s as usize % 5];
+        match op {
+            0 | 1 => {
+                let how = if *op == 0 { SigmaskOp::Add } else { SigmaskOp::Remove };
+                let _ = now(child.sigmask(Some((how, &Sigset::from(sig))), None));
+            }
+            2 => {
+                let _ = now(child.kill(pid, Some(sig)));
+            }
+            _ => note(&child),
+        }
+    }
+    for s in sigs {
+        let _ = now(child.sigmask(Some((SigmaskOp::Remove, &Sigset::from(s))), None));
+    }
+    note(&child);
+    let state = format!("{:?}", sys.state.borrow().processes[&pid].state());
+    // (the probe process is not a task: it is removed again)
+    sys.state.borrow_mut().processes.remove(&pid);
+    format!("{} {}", out.join(" "), if state.contains("Running") { "running" } else { "NOT-RUNNING" })
+}
+
+/// The same on the real kernel, in a forked child (plain libc calls).
+fn sigseq_real(steps: &[(u8, u8)]) -> String {
+    use std::sync::atomic::{AtomicU32, Ordering};
+    static HITS: [AtomicU32; 5] = [AtomicU32::new(0), AtomicU32::new(0), AtomicU32::new(0), AtomicU32::new(0), AtomicU32::new(0)];
+    const SIGS: [libc::c_int; 5] = [libc::SIGTSTP, libc::SIGTTIN, libc::SIGCONT, libc::SIGUSR1, libc::SIGTERM];
+    extern "C" fn handler(n: libc::c_int) {
+        if let Some(i) = SIGS.iter().position(|s| *s == n) {
+            HITS[i].fetch_add(1, Ordering::SeqCst);
+        }
+    }
+    // SAFETY: plain libc calls in a single-threaded process; the child only
+    // uses async-signal-safe calls besides formatting its answer
+    unsafe {
+        // (the history may have lowered the soft limit on open files: lifted
+        // for the probe's own pipe, put back afterwards)
+        let mut lim: libc::rlimit = std::mem::zeroed();
+        libc::getrlimit(libc::RLIMIT_NOFILE, &mut lim);
+        let lifted = libc::rlimit { rlim_cur: lim.rlim_max, rlim_max: lim.rlim_max };
+        libc::setrlimit(libc::RLIMIT_NOFILE, &lifted);
+        let mut fds = [0 as libc::c_int; 2];
+        let rc = libc::pipe(fds.as_mut_ptr());
+        libc::setrlimit(libc::RLIMIT_NOFILE, &lim);
+        if rc != 0 {
+            return "pipe failed".into();
+        }
+        let pid = libc::fork();
+        if pid < 0 {
+            return "fork failed".into();
+        }
+        if pid == 0 {
+            libc::close(fds[0]);
+            for s in SIGS {
+                libc::signal(s, handler as extern "C" fn(libc::c_int) as libc::sighandler_t);
+            }
+            let mut all: libc::sigset_t = std::mem::zeroed();
+            libc::sigemptyset(&mut all);
+            for s in SIGS {
+                libc::sigaddset(&mut all, s);
+            }
+            libc::sigprocmask(libc::SIG_UNBLOCK, &all, std::ptr::null_mut());
+            let mut out: Vec<String> = Vec::new();
+            let mut note = || {
+                let got: Vec<&str> = (0..5).filter(|i| HITS[*i].swap(0, Ordering::SeqCst) > 0).map(|i| SIGSEQ_NAMES[i]).collect();
+                out.push(format!("[{}]", got.join(" ")));
+            };
+            for (op, s) in steps {
+                let sig = SIGS[*s as usize % 5];
+                match op {
+                    0 | 1 => {
+                        let mut set: libc::sigset_t = std::mem::zeroed();
+                        libc::sigemptyset(&mut set);
+                        libc::sigaddset(&mut set, sig);
+                        libc::sigprocmask(if *op == 0 { libc::SIG_BLOCK } else { libc::SIG_UNBLOCK }, &set, std::ptr::null_mut());
+                    }
+                    2 => {
+                        libc::kill(libc::getpid(), sig);
+                    }
+                    _ => note(),
+                }
+            }
+            libc::sigprocmask(libc::SIG_UNBLOCK, &all, std::ptr::null_mut());
+            note();
+            let text = format!("{} running", out.join(" "));
+            libc::write(fds[1], text.as_ptr() as *const libc::c_void, text.len());
+            libc::_exit(0);
+        }
+        libc::close(fds[1]);
+        let mut buf = [0u8; 1024];
+        let mut text = Vec::new();
+        loop {
+            let n = libc::read(fds[0], buf.as_mut_ptr() as *mut libc::c_void, buf.len());
+            if n <= 0 {
+                break;
+            }
+            text.extend_from_slice(&buf[..n as usize]);
+        }
+        libc::close(fds[0]);
+        let mut st = 0;
+        libc::waitpid(pid, &mut st, 0);
+        if text.is_empty() {
+            return format!("NOT-RUNNING (wait status {st})");
+        }
+        String::from_utf8_lossy(&text).into_owned()
+    }
 }
 
 /// kill / wait on a child that has exited but has not been waited for
@@ -569,7 +743,7 @@ pub fn real_sys_main() -> ! {
         std::env::set_current_dir(&work).unwrap();
         sys.umask(Mode::from_bits_truncate(0o022));
         let base = work.to_string_lossy().into_owned();
-        all.push(run_ops(&sys, h, &base, &zombie_real));
+        all.push(run_ops(&sys, h, &base, &zombie_real, &sigseq_real));
         // descriptors left open by the history are closed by hand: the next
         // history must start with the same free descriptors
         for fd in 3..64 {
